@@ -162,6 +162,7 @@ def _clone(v, memo):
         o.frozen = getattr(v, 'frozen', False)
         o.maybe_int = getattr(v, 'maybe_int', False)
         o.tok = v.tok
+        o.content_tok = getattr(v, 'content_tok', None)
         memo[id(v)] = o
         return o
     if isinstance(v, SArr) and v.store is not None:
@@ -179,6 +180,7 @@ class ArrStore:
         self.name = name
         self.finite = None    # per-element finiteness predicate (None = all finite)
         self.tok = z3.Int(f'arrid!{next(_fw)}')   # identity of the memory (id_() in contracts)
+        self.content_tok = None   # token of the array this memory is an unmodified copy of
 
 
 class SwapStore:
@@ -771,6 +773,7 @@ class Executor:
                 raise Unsupported('pointwise update of an element of a sequence of arrays')
             st.check(f'{nm} has a slot for every iteration', num_term(arr.shape[0]) >= n)
             old = store.fn
+            store.content_tok = None
             store.fn = (lambda p, old=old, nm=nm:
                         self.ite(z3.And(num_term(p[0]) >= 0, num_term(p[0]) < n),
                                  merged(num_term(p[0]), 'a', nm), old(p)))
@@ -1706,6 +1709,7 @@ class Executor:
             return self.fancy_write(a, idx[0], v, st)
         old = store.fn
         oldfin = store.finite
+        store.content_tok = None        # written: no longer a copy of anything
         target = a if idx is None or (len(idx) == 1 and isinstance(idx[0], SArr)
                                       and idx[0].kind == 'bool') else None
         mask = None
@@ -1820,8 +1824,10 @@ class Executor:
                 z3.And(w(q) >= 0, w(q) < n, num_term(sfn(w(q))) == q,
                        z3.ForAll([j], z3.Implies(z3.And(j > w(q), j < n),
                                                  num_term(sfn(j)) != q))))))
+            store.content_tok = None
             store.fn = lambda p, old=old: self.ite(member(p[0]), vfn(w(num_term(p[0]))), old(p))
         elif is_num(v):
+            store.content_tok = None
             store.fn = lambda p, old=old: self.ite(member(p[0]), v, old(p))
         else:
             raise Unsupported('integer-array store of this value')
